@@ -24,11 +24,7 @@ RULE = ("case = (sampler configuration, f output kind {scalar, vector, tuple}, w
         "products are enumerated: block A = all sampler configurations x f output x orders with explicit parameters; "
         "block B = a fixed set of sampler configurations x the complete parameter-placement lattice x orders "
         "(thorough: larger sets in B).  distinct = distinct observation hashes")
-RULE_ADDED = ('Added later: parameters shared between f and log p, mh drift plane, step functions returning a reuse'
-              'd buffer, integer-valued (int64) chain state, call-order plane in fresh interpreters. Round 4: integ'
-              'rands returning the sample itself (fout ident) or a tensor the caller holds (constant integrand; mus'
-              't stay untouched). Round 5: bck_options carrying the keywords of the sampler (nsamples, nburnout, step_size, l'
-              'b, ub) with other values than the forward options - everything judged as without them.')
+RULE_ADDED = 'Added later: parameters shared between f and log p, mh drift plane, step functions returning a reused buffer, integer-valued (int64) chain state, call-order plane in fresh interpreters. Round 4: integrands returning the sample itself (fout ident) or a tensor the caller holds (constant integrand; must stay untouched). Round 5: bck_options carrying the keywords of the sampler (nsamples, nburnout, step_size, lb, ub) with other values than the forward options - everything judged as without them. Round 6: objective sq0 (zero cotangent, second-order content); mh on densities with bounded support (log p NaN / -inf outside).'
 ASSUMPTIONS = [
     "an evaluation of f that carries zero weight in the result and happens at x0 is the documented shape probe",
     "mhcustom: the sample sequence must be a contiguous run of nsamples chain states starting at index nburnout-1, "
